@@ -311,6 +311,7 @@ class Gen:
         if k == "directive":
             return self.directive(d)
         if k == "elemval" and d > 0:
+            self.f("single:ident")      # `<Comp>{y}</Comp>` has a sole identifier child
             return r.pick(["icon", "title"]) + "=" + r.pick(["<b/>", "<>x</>", "<Comp>{y}</Comp>"])
         if k == "only":
             return r.pick(["only", "once"]) + "=" + self.braced(self.expr(0))
@@ -480,6 +481,11 @@ def gen_elem_cases(seed, n, start_id=0):
         out.append({"id": start_id + i, "src": src, "syntax": "jsx", "options": g.options(),
                     "stream": "module", "feat": sorted(g.feat)})
     return out
+
+
+def gen_types_cases(seed, n, start_id=0):
+    """placeholder until the type stream is written: no cases"""
+    return []
 
 
 if __name__ == "__main__":
